@@ -6,7 +6,7 @@ CONSTANTS
   Indexes = {0, 1}
   MaxEnts = 1
   Sizes = {1}
-  Commits = {0, 1}
+  Commits = {1}
   Lazy = TRUE
   Damage = TRUE
   MaxSent = 0
